@@ -1348,6 +1348,7 @@ class UserID(Packet):
         uid = UserID()
         uid.header = copy.copy(self.header)
         uid.uid = self.uid
+        uid._encoding_fallback = self._encoding_fallback
         return uid
 
     def parse(self, packet):
